@@ -422,7 +422,8 @@ const char *INSPHERE_CLS[] = {"uniform",
                               "perturbed-1..1000ulp",
                               "perturbed-loguni",
                               "coplanar-tetrahedron",
-                              "coincident"};
+                              "coincident",
+                              "needle-cluster"};
 
 // all signed permutations of (p,q,r): 48 points on one sphere around 0
 std::vector<int64_t> signperm(int64_t p, int64_t q, int64_t r, int idx) {
@@ -484,8 +485,91 @@ Rel cospherical(bool lattice) {
   return r;
 }
 
+// Three vertices a, b, c in a tight cluster (2^10..2^34 ulp) around the test
+// point e and coplanar with it to within an ulp, so that the sphere through
+// a, b, c, e has a radius of the order of the whole coordinate range; the
+// fourth vertex d is put on that sphere 2^44..2^51 ulp away and moved by a few
+// ulp.  The terms of the in-sphere determinant then differ by ~30 orders of
+// magnitude and its floating-point value is pure rounding noise: the largest
+// dynamic range the filter's error bound has to cover.
+// Points in the order a, b, c, d, e (e = origin of the relative coordinates).
+Rel needle_cluster() {
+  typedef long double ld;
+  const int rb = (int)vr::irange(10, 34);
+  const int64_t N = 1ll << rb;
+  Rel r(5, std::vector<int64_t>(3, 0));
+  for (int i = 0; i < 2; ++i)
+    for (int k = 0; k < 3; ++k)
+      r[i][k] = sym(N);
+  r[2][0] = sym(N);
+  r[2][1] = sym(N);
+  // det3(a,b,c) = rest + c.z * cof: the c.z that brings it closest to 0
+  const __int128 cof = (__int128)r[0][0] * r[1][1] - (__int128)r[0][1] * r[1][0];
+  RC_PRE(cof != 0);
+  const ld minus_rest =
+      -(ld)r[2][0] * ((ld)r[0][1] * r[1][2] - (ld)r[0][2] * r[1][1]) +
+      (ld)r[2][1] * ((ld)r[0][0] * r[1][2] - (ld)r[0][2] * r[1][0]);
+  const ld czl = std::floor(minus_rest / (ld)cof + 0.5L);
+  RC_PRE(std::fabs((double)czl) <= 4. * (double)N);
+  r[2][2] = (int64_t)czl + (vr::coin(0.3) ? vr::irange(-2, 2) : 0);
+  // circumcentre o relative to e: rows (a,b,c) o = |.|^2/2
+  ld M[3][4];
+  for (int i = 0; i < 3; ++i) {
+    ld n = 0;
+    for (int k = 0; k < 3; ++k) {
+      M[i][k] = r[i][k];
+      n += M[i][k] * M[i][k];
+    }
+    M[i][3] = 0.5L * n;
+  }
+  for (int c = 0; c < 3; ++c) {
+    int piv = c;
+    for (int q = c + 1; q < 3; ++q)
+      if (fabsl(M[q][c]) > fabsl(M[piv][c]))
+        piv = q;
+    RC_PRE(M[piv][c] != 0);
+    for (int k = 0; k < 4; ++k)
+      std::swap(M[c][k], M[piv][k]);
+    for (int q = 0; q < 3; ++q)
+      if (q != c) {
+        const ld f = M[q][c] / M[c][c];
+        for (int k = 0; k < 4; ++k)
+          M[q][k] -= f * M[c][k];
+      }
+  }
+  ld o[3], on = 0;
+  for (int k = 0; k < 3; ++k) {
+    o[k] = M[k][3] / M[k][k];
+    on += o[k] * o[k];
+  }
+  on = sqrtl(on);
+  RC_PRE(std::isfinite((double)on) && on > 0);
+  // d = t w with |w| = 1 and o.w = t/2: a point of the sphere at distance t
+  const ld tmax = std::min((ld)std::ldexp(1., 51), 2 * on);
+  RC_PRE(tmax > std::ldexp(1., 44));
+  const ld t = std::exp(vr::uni(std::log(std::ldexp(1., 44)), std::log((double)tmax)));
+  const ld cs = std::min((ld)1., t / (2 * on)), sn = sqrtl(1 - cs * cs);
+  // a unit vector perpendicular to o
+  ld v[3] = {(ld)vr::uni(-1., 1.), (ld)vr::uni(-1., 1.), (ld)vr::uni(-1., 1.)};
+  ld dot = 0;
+  for (int k = 0; k < 3; ++k)
+    dot += v[k] * o[k] / on;
+  ld vn = 0;
+  for (int k = 0; k < 3; ++k) {
+    v[k] -= dot * o[k] / on;
+    vn += v[k] * v[k];
+  }
+  vn = sqrtl(vn);
+  RC_PRE(vn > 1e-6);
+  for (int k = 0; k < 3; ++k) {
+    const ld w = cs * o[k] / on + sn * v[k] / vn;
+    r[3][k] = (int64_t)std::floor((double)(t * w) + 0.5) + vr::irange(-3, 3);
+  }
+  return r;
+}
+
 VCase gen_insphere() {
-  const int cls = vr::weighted({3, 3, 3, 2, 6, 4, 2, 1});
+  const int cls = vr::weighted({3, 3, 3, 2, 6, 4, 2, 1, 4}) ;
   std::vector<int64_t> m;
   auto flat = [&](const Rel &r) {
     m.clear();
@@ -527,6 +611,9 @@ VCase gen_insphere() {
     m = place(r);
     break;
   }
+  case 8:
+    m = place(needle_cluster());
+    break;
   default: {
     Rel r(5, std::vector<int64_t>(3, 0));
     for (int i = 1; i < 5; ++i)
@@ -536,7 +623,9 @@ VCase gen_insphere() {
     m = place(r);
   }
   }
-  const auto &sh = P5.p[vr::irange(0, 119)];
+  // (the needle cluster keeps its roles in half of the cases: the filter is
+  // not symmetric in its arguments)
+  const auto &sh = (cls == 8 && vr::coin()) ? P5.p[0] : P5.p[vr::irange(0, 119)];
   std::vector<int64_t> ms(15);
   for (int i = 0; i < 5; ++i)
     for (int k = 0; k < 3; ++k)
@@ -707,7 +796,10 @@ int main(int argc, char **argv) {
       "vectors of one length), translated by a generated offset (incl. "
       "touching 1.0 and 2-2^-52); those perturbed in one coordinate by "
       "1..1000 ulp or in one or two by a log-uniform amount up to 2^44 ulp; "
-      "coincident/collinear points; the roles of the points are shuffled. "
+      "coincident/collinear points; for the in-sphere test also needle "
+      "clusters (three vertices within 2^10..2^34 ulp of the test point and "
+      "coplanar with it to an ulp, the fourth on their common sphere 2^44.."
+      "2^51 ulp away, +-3 ulp); the roles of the points are shuffled. "
       "Non-trivial = exact determinant is 0 or the floating-point filter "
       "(re-evaluated in the harness) cannot decide. Every case checks the "
       "given order and one generated permutation, 5% of the cases all "
@@ -724,7 +816,8 @@ int main(int argc, char **argv) {
                    {{"degenerate-or-exact-path", 0.30},
                     {"det-zero", 0.10},
                     {"filter-decides", 0.10},
-                    {"near-filter-threshold", 0.005}}});
+                    {"near-filter-threshold", 0.005},
+                    {"needle-cluster", 0.05}}});
   props.push_back({"insphere_meaning", 40000, gen_insphere, o_meaning,
                    "5 points as for insphere; oracle: circumcentre of a,b,c,d by "
                    "Cramer's rule in GMP, e inside/on/outside by comparing "
